@@ -10,6 +10,7 @@ import (
 	"path/filepath"
 	"strings"
 	"sync"
+	"unicode/utf8"
 
 	"github.com/nlnwa/whatwg-url/url"
 )
@@ -191,10 +192,52 @@ func (p *Pool) Run(njobs int, job func(d *Driver, i int)) {
 	wg.Wait()
 }
 
-// oracle statistics (H1-H3 of DESIGN.md are tested on every oracle answer)
+// oracle statistics: the hypotheses about the IDNA oracle that theorems carry as premises
+// (H1 ascii transparency: C09_ascii_host_exact, C09_localhost; H2 ASCII-case invariance: C09_spelling_*;
+// H3 lower-case ASCII non-empty output on answers the host parser uses: C04/C19 via MachineInv.H3,
+// C09_output_clean) are tested on the real library on every oracle answer of every run.
 var oracleMu sync.Mutex
 var oracleCalls, oracleErrs int
-var oracleH1Fail, oracleH3Fail []string
+var oracleH1Fail, oracleH2Fail, oracleH3Fail []string
+
+// the wrapper's fall-back test (hostparser.go containsOnlyASCIIOrMiscAndNoPunycode), re-implemented
+func fallbackAccepts(s string) bool {
+	p := 0
+	for _, r := range strings.ToLower(s) {
+		if r >= 0x80 && r != 0x2260 && r != 0x226e && r != 0x226f {
+			return false
+		}
+		switch {
+		case r == '.':
+			p = 0
+		case p == 0 && r == 'x':
+			p = 1
+		case p == 1 && r == 'n':
+			p = 2
+		case p == 2 && r == '-':
+			p = 3
+		case p == 3 && r == '-':
+			return false
+		default:
+			p = -1
+		}
+	}
+	return true
+}
+
+func flipCase(s string, k int) string {
+	b := []byte(s)
+	for i := range b {
+		if (i+k)%2 == 0 {
+			if b[i] >= 'a' && b[i] <= 'z' {
+				b[i] -= 32
+			} else if b[i] >= 'A' && b[i] <= 'Z' {
+				b[i] += 32
+			}
+		}
+	}
+	return string(b)
+}
 
 func oracleLog(s, a string, isErr bool) {
 	oracleMu.Lock()
@@ -202,6 +245,9 @@ func oracleLog(s, a string, isErr bool) {
 	oracleCalls++
 	if isErr {
 		oracleErrs++
+	}
+	if s == "" {
+		return
 	}
 	// H1: pure ASCII without an xn-- label => result is the ASCII lower-casing
 	ascii := true
@@ -221,15 +267,25 @@ func oracleLog(s, a string, isErr bool) {
 			oracleH1Fail = append(oracleH1Fail, s)
 		}
 	}
-	// H3: the result is ASCII without upper-case letters (when no error)
-	if !isErr {
+	// H3: on every answer the host parser uses (no error, or error with the fall-back accepting): ASCII, no
+	// upper-case letter, and non-empty when the error flag is set
+	if !isErr || fallbackAccepts(s) {
+		bad := isErr && a == ""
 		for i := 0; i < len(a); i++ {
 			if a[i] >= 0x80 || (a[i] >= 'A' && a[i] <= 'Z') {
-				if len(oracleH3Fail) < 5 {
-					oracleH3Fail = append(oracleH3Fail, s)
-				}
-				break
+				bad = true
 			}
+		}
+		if bad && len(oracleH3Fail) < 5 {
+			oracleH3Fail = append(oracleH3Fail, s)
+		}
+	}
+	// H2: the answer does not depend on ASCII letter case (sampled: every 4th call, valid UTF-8 only)
+	if oracleCalls%4 == 0 && utf8.ValidString(s) {
+		v := flipCase(s, oracleCalls)
+		a2, err2 := url.VerifIdnaRaw(v)
+		if (a2 != a || (err2 != nil) != isErr) && len(oracleH2Fail) < 5 {
+			oracleH2Fail = append(oracleH2Fail, s+" vs "+v)
 		}
 	}
 }
